@@ -1,1 +1,176 @@
-// hook for meet_pass/train_disp/free_path.rs (child module: `use super::*;` reaches the file's private items)
+// hook for meet_pass/train_disp/free_path.rs: Kani proof harnesses for the unsafe sentinel searches (private fns).
+#[cfg(kani)]
+mod kani_harness {
+    use super::super::*;
+    use std::num::NonZeroU16;
+
+    const N: usize = 5;
+
+    fn stub_format(_args: core::fmt::Arguments<'_>) -> String {
+        String::new()
+    }
+
+    fn any_vec_trains(len: usize) -> Vec<TrainIdx> {
+        let mut v: Vec<TrainIdx> = Vec::with_capacity(N + N + 2);
+        let mut i = 0;
+        while i < len {
+            v.push(kani::any());
+            i += 1;
+        }
+        v
+    }
+
+    /// calc_idx_sentinels: div_idx < len, last node carries the sentinel train and a disp_node_idx different from every
+    /// other node's (the shape TrainDisp::new / update_free_path maintain): never reads outside div_nodes, result within bounds.
+    #[kani::proof]
+    #[kani::unwind(7)]
+    #[kani::stub(alloc::fmt::format, stub_format)]
+    fn c05_calc_idx_sentinels() {
+        let len: usize = kani::any();
+        kani::assume(len >= 1 && len <= N);
+        let mut nodes: Vec<DivergeNode> = Vec::with_capacity(N);
+        let mut i = 0;
+        while i < len {
+            nodes.push(DivergeNode { train_idx: kani::any(), disp_node_idx: kani::any() });
+            i += 1;
+        }
+        let sentinel: TrainIdx = kani::any();
+        kani::assume(nodes[len - 1].train_idx == sentinel);
+        let mut j = 0;
+        while j + 1 < len {
+            kani::assume(nodes[j].disp_node_idx != nodes[len - 1].disp_node_idx);
+            j += 1;
+        }
+        let div_idx: usize = kani::any();
+        kani::assume(div_idx < len);
+        let (_node, split) = calc_idx_sentinels(div_idx, sentinel, &nodes);
+        assert!(split <= len);
+        assert!(split > div_idx);
+        kani::cover!(split < len && div_idx + 1 < split);
+    }
+
+    fn path_and_blocked(len: usize, nblocked: usize) -> (Vec<LinkIdx>, Vec<TrainIdx>) {
+        let mut path: Vec<LinkIdx> = Vec::with_capacity(N);
+        let mut i = 0;
+        while i < len {
+            let l: u32 = kani::any();
+            kani::assume((l as usize) < nblocked);
+            path.push(LinkIdx::new(l));
+            i += 1;
+        }
+        let mut blocked: Vec<TrainIdx> = Vec::with_capacity(N);
+        let mut k = 0;
+        while k < nblocked {
+            blocked.push(kani::any());
+            k += 1;
+        }
+        (path, blocked)
+    }
+
+    /// find_train_intersect, Single variant: stays inside link_idx_path, restores the overwritten sentinel slot,
+    /// result in [idx_split, max(idx_split, idx_sentinel)]
+    #[kani::proof]
+    #[kani::unwind(7)]
+    #[kani::stub(alloc::fmt::format, stub_format)]
+    fn c05_find_train_intersect_single() {
+        let len: usize = kani::any();
+        kani::assume(len >= 1 && len <= N);
+        let (mut path, blocked) = path_and_blocked(len, N);
+        let before = path.clone();
+        let idx_split: usize = kani::any();
+        let idx_sentinel: usize = kani::any();
+        kani::assume(idx_split <= len && idx_sentinel < len);
+        let chk: u32 = kani::any();
+        kani::assume((chk as usize) < N);
+        let lot = LinkOptType::Single(LinkIdx::new(chk));
+        let r = find_train_intersect(idx_split, idx_sentinel, &lot, &mut path, &blocked);
+        assert!(r >= idx_split);
+        assert!(r <= idx_split.max(idx_sentinel));
+        let mut i = 0;
+        while i < len {
+            assert!(path[i] == before[i]);
+            i += 1;
+        }
+        kani::cover!(idx_split < idx_sentinel && r < idx_sentinel);
+    }
+
+    #[kani::proof]
+    #[kani::unwind(7)]
+    #[kani::stub(alloc::fmt::format, stub_format)]
+    fn c05_find_train_intersect_range() {
+        let len: usize = kani::any();
+        kani::assume(len >= 1 && len <= N);
+        let (mut path, blocked) = path_and_blocked(len, N);
+        let before = path.clone();
+        let idx_split: usize = kani::any();
+        let idx_sentinel: usize = kani::any();
+        kani::assume(idx_split <= len && idx_sentinel < len);
+        let lo: usize = kani::any();
+        let diff: usize = kani::any();
+        kani::assume(lo < N && diff <= 16);
+        let lot = LinkOptType::Range(lo, diff);
+        let r = find_train_intersect(idx_split, idx_sentinel, &lot, &mut path, &blocked);
+        assert!(r >= idx_split);
+        assert!(r <= idx_split.max(idx_sentinel));
+        let mut i = 0;
+        while i < len {
+            assert!(path[i] == before[i]);
+            i += 1;
+        }
+        kani::cover!(idx_split < idx_sentinel && r < idx_sentinel);
+    }
+
+    #[kani::proof]
+    #[kani::unwind(7)]
+    #[kani::stub(alloc::fmt::format, stub_format)]
+    fn c05_find_train_intersect_check() {
+        let len: usize = kani::any();
+        kani::assume(len >= 1 && len <= N);
+        let (mut path, blocked) = path_and_blocked(len, N);
+        let idx_split: usize = kani::any();
+        let idx_sentinel: usize = kani::any();
+        kani::assume(idx_split <= len && idx_sentinel < len);
+        let r = find_train_intersect(idx_split, idx_sentinel, &LinkOptType::Check, &mut path, &blocked);
+        assert!(r >= idx_split);
+        assert!(r <= idx_split.max(idx_sentinel));
+        kani::cover!(idx_split < idx_sentinel && r < idx_sentinel);
+    }
+
+    /// add_blocking_trains: base view positioned at the end of trains_blocking; the result view is the duplicate-free union
+    #[kani::proof]
+    #[kani::unwind(6)]
+    #[kani::stub(alloc::fmt::format, stub_format)]
+    fn c05_add_blocking_trains() {
+        let len: usize = kani::any();
+        kani::assume(len <= 3);
+        let mut tb = any_vec_trains(len);
+        let b0: u32 = kani::any();
+        kani::assume((b0 as usize) <= len);
+        let base = TrainIdxsView::new(b0, len as u32);
+        let a0: u32 = kani::any();
+        let a1: u32 = kani::any();
+        kani::assume(a0 <= a1 && (a1 as usize) <= len);
+        let add = TrainIdxsView::new(a0, a1);
+        let before_len = tb.len();
+        let view = add_blocking_trains(&mut tb, &base, &add);
+        assert!(view.idx_begin == b0);
+        assert!((view.idx_end as usize) == tb.len());
+        assert!(tb.len() >= before_len && tb.len() <= before_len + (a1 - a0) as usize);
+        // every train of the add view is present in the result view
+        let mut i = a0 as usize;
+        while i < a1 as usize {
+            let t = tb[i];
+            let mut found = false;
+            let mut j = b0 as usize;
+            while j < tb.len() {
+                if tb[j] == t {
+                    found = true;
+                }
+                j += 1;
+            }
+            assert!(found);
+            i += 1;
+        }
+        kani::cover!(tb.len() > before_len);
+    }
+}
